@@ -421,6 +421,50 @@ func runC11(w *World, r *Report, tier string) {
 		}
 	}
 
+	// R7: the state that is reset is the state the next attempt will read. NewSession negotiates on the client's own
+	// Session object when there is one — on a copy, every reset of the stale state would be lost whenever the attempt fails
+	{
+		r.Rule("R7", "identity: when the client already has a Session, NewSession negotiates (and resets stale resumption state) on that very object, not on a copy")
+		fSess := w.Field("xmpp.Client.Session")
+		rcs := w.callsInH(ns, "xmpp.Session.resume")
+		if len(rcs) == 1 {
+			rc0 := rcs[0].(*ssa.Call)
+			isRC := func(in ssa.Instruction) bool { return in == ssa.Instruction(rc0) }
+			bad := ""
+			nReuse := 0
+			err := walkPaths(entryLoc(ns), isRC, nil, 50000, func(path []ssa.Instruction, end pathEnd) {
+				if !isRC(path[len(path)-1]) {
+					return
+				}
+				reused := pathAsserts(path, func(c ssa.Value, truth bool) bool {
+					x, eq, ok := nilCompare(c)
+					if !ok || eq == truth {
+						return false
+					}
+					f, _ := loadedField(x)
+					if f == fSess {
+						return true
+					}
+					f2, _ := loadedField(resolveOn(x, curEdgeIdx, path))
+					return f2 == fSess
+				})
+				if !reused {
+					return
+				}
+				nReuse++
+				recv := resolveOn(rc0.Call.Args[0], len(path)-1, path)
+				if f, _ := loadedField(recv); f != fSess {
+					bad = "with a previous Session present, resume() runs on " + w.nfOn(recv, path) + ", not on the client's Session: what it resets when the resumption is not confirmed is lost if this attempt fails, and the stale id is presented again"
+				}
+			})
+			if err != nil {
+				r.Undecided("R7", "xmpp.NewSession→resume#receiver", w.ipos(rc0), err.Error())
+			} else {
+				r.Check(bad == "" && nReuse > 0, "R7", "xmpp.NewSession→resume#receiver", w.ipos(rc0), bad, fmt.Sprintf("%d path(s) with a previous Session: resume() on c.Session itself", nReuse))
+			}
+		}
+	}
+
 	// R4/R5 in NewSession
 	resCalls := w.callsInH(ns, "xmpp.Session.resume")
 	if len(resCalls) != 1 {
